@@ -16,9 +16,10 @@ extern "C" {
   void __CPROVER_assert(int, const char*);
 }
 #define VX_ASSUME(c)     __CPROVER_assume(!!(c))
-#define VX_ASSERT(c, d)  __CPROVER_assert(!!(c), d)
+// nomerge: keep one call per assertion so that every description stays a literal in the IR
+#define VX_ASSERT(c, d)  do { [[clang::nomerge]] __CPROVER_assert(!!(c), d); } while (0)
 // reachability witness: must come back FAILED, otherwise the harness is vacuous
-#define VX_REACH(d)      __CPROVER_assert(0, "WITNESS: " d)
+#define VX_REACH(d)      do { [[clang::nomerge]] __CPROVER_assert(0, "WITNESS: " d); } while (0)
 // input class of a listed known finding: assumed away in the "excl" variant so that any OTHER violation still fails
 #ifdef VX_EXCLUDE_KNOWN
 #define VX_KNOWN(cond)   __CPROVER_assume(!(cond))
